@@ -603,7 +603,7 @@ func band(el time.Duration) int {
 }
 
 func timeoutCase(rt *rapid.T) {
-	proto := rapid.SampledFrom([]string{"Http1", "Http1", "bolt"}).Draw(rt, "protocol")
+	proto := rapid.SampledFrom([]string{"bolt", "Http1", "Http1"}).Draw(rt, "protocol") // rapid favours early elements: the rarer choice comes first
 	perm := rapid.Permutation([]int{0, 1, 2}).Draw(rt, "assignment")
 	hasRoute := rapid.Bool().Draw(rt, "routeTimeout")
 	hasHeader := rapid.Bool().Draw(rt, "headerTimeout")
